@@ -824,6 +824,7 @@ class Interpreter:
         self._verif_id = _verif.new_id()
         self._verif_guards = []  # type: List[Any]
         _verif.emit({'t': 'init', 'iid': self._verif_id, 'chart': _verif.describe(self._statechart),
+                     'sig': _verif.signature(self._statechart),
                      'time': self._time, 'ignore_contract': self._ignore_contract})
         self.execute_once = self._verif_execute_once  # type: ignore
         self._queue_event = self._verif_queue_event  # type: ignore
@@ -831,6 +832,7 @@ class Interpreter:
 
     def _verif_execute_once(self) -> Optional[MacroStep]:
         record = {'t': 'exec', 'iid': self._verif_id, 'clock': self.clock.time,
+                  'sig': _verif.signature(self._statechart),
                   'pre': {'conf': self.configuration, 'final': self.final, 'time': self.time}}
         del self._verif_guards[:]
         returned = None
